@@ -20,7 +20,8 @@ PREFIX_PAIRS = [(b"a", b"ad"), (b"a", b"about"), (b"d", b"d0"), (b"lib", b"lib2"
 PLAIN = [b"a", b"b", b"c", b"d", b"e", b"f1", b"f2", b"sub", b"lib", b"src"]
 
 BRANCHES = [b"dev", b"feat", b"a", b"ab", b"a-b", b"a.b", b"b", b"main2", b"x_1", b"Z", b"rel.1", b"m"]
-HOSTILE_BRANCHES = [b"../../HEAD", b"a/b", b"..", b".", b"a: b", b"", b"x\\y", b"../x", b"refs/heads/q"]
+HOSTILE_BRANCHES = [b"../../HEAD", b"a/b", b"..", b".", b"a: b", b"", b"x\\y", b"../x", b"refs/heads/q",
+                    b"a\nx y z", b"t\tab", b"nl\n", b"q\rr"]
 
 MESSAGES = [b"first", b"fix: colon", b"two words", b"three word message", b"tab\there",
             b"line one\nline two has three words\nmore", b"  padded  ", "non-ascii üé".encode(),
